@@ -159,7 +159,7 @@ def run(ctx):
     binary, hooks = ctx.binary()
     res.extra["hooks_available"] = hooks
     common.probe_regressions(ctx, res, binary, hooks)
-    n = 160 if ctx.quick else 2400
+    n = 320 if ctx.quick else 6000
     with multiprocessing.Pool(16) as pool:
         outs = pool.map(pair, [(binary, hooks, s) for s in ctx.seeds(n, "twin")], chunksize=2)
     pairs = 0
@@ -185,7 +185,7 @@ def run(ctx):
                 "normalised (timestamps dropped, lines sorted, 353/319 merged into sets) and must be equal; in world 1 the "
                 "observer also speaks into the secret channel with every status prefix and no member may receive it; "
                 "distinct = (variant, query verb, argument form, multi-prefix)")
-    res.floor("world_pairs", pairs, 100)
+    res.floor("world_pairs", pairs, 200)
     res.floor("queries_compared", res.evaluations, 1000)
     res.assumptions = ["LUSERS, LIST member counts of channels an invisible user is on, ISON/USERHOST are outside the statement "
                        "and are not compared (LIST is not queried in the invisible-user variant)"]
